@@ -92,7 +92,7 @@ pub fn boundaries(data: &[u8], cuts: &Cuts) -> Vec<usize> {
         Cuts::LinePerBlock => {
             let mut start = 0;
             for (i, &c) in data.iter().enumerate() {
-                if c == b'\n' || i + 1 - start >= MAX_PAYLOAD {
+                if (c == b'\n' && b.len() <= 1500) || i + 1 - start >= MAX_PAYLOAD {
                     b.push(i + 1);
                     start = i + 1;
                 }
@@ -105,7 +105,8 @@ pub fn boundaries(data: &[u8], cuts: &Cuts) -> Vec<usize> {
             let mut p = 0;
             let mut k = 0;
             while p < data.len() {
-                let s = if sizes.is_empty() { MAX_PAYLOAD } else { (sizes[k % sizes.len()] as usize).clamp(1, MAX_PAYLOAD) };
+                // after 1500 small blocks the rest goes into maximal blocks (keeps huge inputs tractable)
+                let s = if sizes.is_empty() || k >= 1500 { MAX_PAYLOAD } else { (sizes[k % sizes.len()] as usize).clamp(1, MAX_PAYLOAD) };
                 k += 1;
                 p = (p + s).min(data.len());
                 b.push(p);
